@@ -1,7 +1,8 @@
 (* Runs coq/FileSev.v + gen/NullTable.v (extracted):
    T <strict 0/1> <nullable 0/1> <kind>      -> severity filler
    F <sev0> <end_ok 0/1> o1 o2 ...   (o = N | S<sev> | C<sev>)  -> ret sev exit
-   I s1 s2 ...                          -> instance severity *)
+   I s1 s2 ...                          -> instance severity
+   X own p1 p2 ...                      -> complex_sev (STEPcomplex::STEPread) *)
 open Conv
 open FileSev
 open NullTable
@@ -31,6 +32,19 @@ let () =
         let (ret, sev) = append_file coq_COMPLEX_APPENDS (z_of_int (int_of_string sev0)) (Stdlib.List.map parse os) (eok = "1") in
         let ex = if BinInt.Z.leb sev coq_P21READ_FAIL_AT then 1 else 0 in
         Printf.printf "F %d %d %d\n" (int_of_z ret) (int_of_z sev) ex
+      | "X" :: own :: ps ->
+        (* X <own severity> <sev>:<attr sev><d|e>,... ...   -> severity of the complex instance, and which parts count *)
+        let parse_part w =
+          (match String.split_on_char ':' w with
+           | sv :: rest ->
+             let al = (match rest with a :: _ when a <> "" -> String.split_on_char ',' a | _ -> []) in
+             (z_of_int (int_of_string sv),
+              Stdlib.List.map (fun a -> let n = String.length a in
+                                (z_of_int (int_of_string (String.sub a 0 (n - 1))), a.[n - 1] = 'd')) al)
+           | [] -> (z_of_int 3, [])) in
+        let parts = Stdlib.List.map parse_part ps in
+        Printf.printf "X %d %s\n" (int_of_z (complex_sev (z_of_int (int_of_string own)) parts))
+          (String.concat "" (Stdlib.List.map (fun p -> if part_counts p then "1" else "0") parts))
       | "I" :: ss ->
         Printf.printf "I %d\n" (int_of_z (inst_sev (Stdlib.List.map (fun s -> z_of_int (int_of_string s)) ss)))
       | _ -> ()
